@@ -10,12 +10,13 @@ From Verif Require Import Lib.Base Lib.MetricsModel C08.Spec C08.Model C08.Proof
 Open Scope Z_scope.
 
 (** Counters, up-down counters and histograms (sum, count and every bucket are the
-    components of the point vector): every cumulative value is the running total of
+    components of the point vector): at every point where both readers collect (they may also
+    collect on their own in between, any number of times) every cumulative value is the running total of
     the delta values reported so far for that attribute set; a set absent from every
     delta so far is absent from the cumulative view. *)
 Theorem c08_cumulative_is_running_delta : forall x i h t0 t0' tm tm',
   class_of x = CSyncAdd ->
-  RunningDelta (map s_points (stream x i Delta t0 tm h))
+  RunningDelta (sync_points h 0 0) (map s_points (stream x i Delta t0 tm h))
                (map s_points (stream x i Cumulative t0' tm' h)).
 Proof. intros. now apply running_delta. Qed.
 Print Assumptions c08_cumulative_is_running_delta.
@@ -51,8 +52,8 @@ Print Assumptions c08_start_le_time.
     observed in the preceding cycle (zero if not observed then). *)
 Theorem c08_async_cycle_exact : forall x i h t0 t0' tm tm',
   class_of x = CAsyncSum ->
-  AsyncDelta (cycles_async i h []) (map s_points (stream x i Delta t0 tm h)) /\
-  AsyncCum (cycles_async i h []) (map s_points (stream x i Cumulative t0' tm' h)).
+  AsyncDelta (cycles_async true i h []) (map s_points (stream x i Delta t0 tm h)) /\
+  AsyncCum (cycles_async false i h []) (map s_points (stream x i Cumulative t0' tm' h)).
 Proof. intros. split; [now apply async_delta | now apply async_cum]. Qed.
 Print Assumptions c08_async_cycle_exact.
 
@@ -61,11 +62,11 @@ Print Assumptions c08_async_cycle_exact.
     synchronous gauge under a cumulative reader keeps every set and shows its last value so far. *)
 Theorem c08_gauge_last : forall x i h t0 t0' tm tm',
   (class_of x = CSyncGauge ->
-     GaugeCycle (cycles_sync i h []) (map s_points (stream x i Delta t0 tm h)) /\
-     GaugeSoFar (cycles_sync i h []) (map s_points (stream x i Cumulative t0' tm' h))) /\
+     GaugeCycle (cycles_sync true i h []) (map s_points (stream x i Delta t0 tm h)) /\
+     GaugeSoFar (cycles_sync false i h []) (map s_points (stream x i Cumulative t0' tm' h))) /\
   (class_of x = CAsyncGauge ->
-     GaugeCycle (cycles_async i h []) (map s_points (stream x i Delta t0 tm h)) /\
-     GaugeCycle (cycles_async i h []) (map s_points (stream x i Cumulative t0' tm' h))).
+     GaugeCycle (cycles_async true i h []) (map s_points (stream x i Delta t0 tm h)) /\
+     GaugeCycle (cycles_async false i h []) (map s_points (stream x i Cumulative t0' tm' h))).
 Proof. exact gauge_last. Qed.
 Print Assumptions c08_gauge_last.
 
@@ -97,7 +98,7 @@ Print Assumptions c08_callback_error_harmless.
     per collection. *)
 Theorem c08_points_canonical : forall x i t t0 tm h,
   AllSorted (stream x i t t0 tm h) /\
-  length (stream x i t t0 tm h) = length (filter (fun o => match o with Collect _ _ => true | _ => false end) h).
+  length (stream x i t t0 tm h) = length (filter (collects (is_delta t)) h).
 Proof. exact points_canonical. Qed.
 Print Assumptions c08_points_canonical.
 
@@ -118,19 +119,19 @@ Print Assumptions c08_async_deltas_telescope.
     implies the Prop reading of the clause of the stream's class (for any traces whatsoever). *)
 Theorem c08_checker_sound : forall cl i h dtr ctr, stream_ok cl i h dtr ctr = true ->
   match cl with
-  | CSyncAdd => RunningDelta (map s_points dtr) (map s_points ctr)
-  | CSyncGauge => GaugeCycle (cycles_sync i h []) (map s_points dtr) /\ GaugeSoFar (cycles_sync i h []) (map s_points ctr)
-  | CAsyncSum => AsyncDelta (cycles_async i h []) (map s_points dtr) /\ AsyncCum (cycles_async i h []) (map s_points ctr)
-  | CAsyncGauge => GaugeCycle (cycles_async i h []) (map s_points dtr) /\ GaugeCycle (cycles_async i h []) (map s_points ctr)
+  | CSyncAdd => RunningDelta (sync_points h 0 0) (map s_points dtr) (map s_points ctr)
+  | CSyncGauge => GaugeCycle (cycles_sync true i h []) (map s_points dtr) /\ GaugeSoFar (cycles_sync false i h []) (map s_points ctr)
+  | CAsyncSum => AsyncDelta (cycles_async true i h []) (map s_points dtr) /\ AsyncCum (cycles_async false i h []) (map s_points ctr)
+  | CAsyncGauge => GaugeCycle (cycles_async true i h []) (map s_points dtr) /\ GaugeCycle (cycles_async false i h []) (map s_points ctr)
   end.
 Proof. exact stream_ok_sound. Qed.
 Print Assumptions c08_checker_sound.
 
 (** ** Non-vacuity *)
 Definition ex_h : list op :=
-  [ Measure 0%nat 1%N 5; Measure 0%nat 2%N 7; Register 10%N [1%nat]; Collect [(10%N, 1%nat, 1%N, 100)] [];
-    Measure 0%nat 1%N 3; Collect [(10%N, 1%nat, 1%N, 130); (10%N, 1%nat, 2%N, 9)] [10%N];
-    Unregister 10%N; Collect [(10%N, 1%nat, 1%N, 999)] [10%N] ].
+  [ Measure 0%nat 1%N 5; Measure 0%nat 2%N 7; Register 10%N [1%nat]; Collect 0 [(10%N, 1%nat, 1%N, 100)] [];
+    Measure 0%nat 1%N 3; Collect 0 [(10%N, 1%nat, 1%N, 130); (10%N, 1%nat, 2%N, 9)] [10%N];
+    Unregister 10%N; Collect 0 [(10%N, 1%nat, 1%N, 999)] [10%N] ].
 Definition ex_tm (n : nat) : N := N.of_nat (10 * S n).
 
 Example ex_counter :
@@ -150,5 +151,5 @@ Example ex_hist :
 Proof. vm_compute. auto. Qed.
 Example ex_clock : (1 <= ex_tm 0)%N /\ monotone ex_tm.
 Proof. split; [vm_compute; discriminate|]. intros a b H. unfold ex_tm. lia. Qed.
-Example ex_unregistered : forallb (fun o => negb (registers 10%N o)) [Collect [(10%N, 1%nat, 1%N, 999)] []] = true.
+Example ex_unregistered : forallb (fun o => negb (registers 10%N o)) [Collect 0 [(10%N, 1%nat, 1%N, 999)] []] = true.
 Proof. reflexivity. Qed.
